@@ -761,3 +761,171 @@ Proof.
   exists [4; 255; 69; 35; 1], [Manuf 9029 [1]].
   split; [vm_compute; reflexivity|]. split; [vm_compute; reflexivity|discriminate].
 Qed.
+
+(** ** AdvertisingDevicesDB.on_device_found over sequences of advertisements *)
+
+Section ScanProofs.
+Variable urlnorm : text -> url_result.
+Variable filter : option N.
+Variable updates : bool.
+
+Lemma parse_adv_ok data : wf_bytes data = true ->
+  exists o, parse_adv urlnorm data = Ok o /\ (forall l, o = Some l -> from_bytes urlnorm data = Ok l).
+Proof.
+  intros W. destruct (parser_total urlnorm data W) as [Hle Hgt]. unfold parse_adv.
+  destruct (Nat.le_gt_cases (length data) 31) as [L|G].
+  - destruct (Hle L) as [[l ->]| ->].
+    + exists (Some l). split; [reflexivity|]. intros l' E. inversion E; reflexivity.
+    + exists None. split; [reflexivity|]. discriminate.
+  - rewrite (Hgt G). exists None. split; [reflexivity|]. discriminate.
+Qed.
+
+Lemma handle_ok db ev : wf_bytes (ev_data ev) = true -> exists r, handle urlnorm filter updates db ev = Ok r.
+Proof.
+  intros W. destruct (parse_adv_ok _ W) as (o & Ho & _). unfold handle. rewrite Ho. cbn [bind].
+  destruct (ev_pdu ev); destruct o as [l|];
+    repeat match goal with
+    | |- exists r, (if ?c then _ else _) = Ok r => destruct c
+    | |- exists r, (let '(_, _) := ?x in _) = Ok r => destruct x
+    | |- exists r, match ?x with Some _ => _ | None => _ end = Ok r => destruct x
+    end; eauto.
+Qed.
+
+Lemma on_device_found_ok db ev : wf_bytes (ev_data ev) = true ->
+  exists r, on_device_found urlnorm filter updates db ev = Ok r.
+Proof.
+  intros W. unfold on_device_found. destruct (handle_ok db ev W) as [r ->]. cbn [bind].
+  destruct (timeouts (fst r)). eauto.
+Qed.
+
+(** scanning survives ANY sequence of advertisements *)
+Lemma scan_never_raises evs : forall db,
+  Forall (fun ev => wf_bytes (ev_data ev) = true) evs ->
+  exists r, scan urlnorm filter updates db evs = Ok r.
+Proof.
+  induction evs as [|ev evs IH]; intros db H; cbn [scan]; [eauto|].
+  inversion H as [|? ? W Hr]; subst.
+  destruct (on_device_found_ok db ev W) as [x ->]. cbn [bind].
+  destruct (IH (fst x) Hr) as [y ->]. cbn [bind]. eauto.
+Qed.
+
+(** malformed records never change the database *)
+Lemma malformed_ignored db ev :
+  parse_adv urlnorm (ev_data ev) = Ok None -> handle urlnorm filter updates db ev = Ok (db, []).
+Proof. intros H. unfold handle. rewrite H. cbn [bind]. destruct (ev_pdu ev); reflexivity. Qed.
+
+(** what is stored for an address is what was parsed from advertisements of that address *)
+Definition is_adv (p : pdu) : bool := match p with AdvInd | AdvNonconn => true | _ => false end.
+Definition dev_ok (seen : list event) (d : device) : Prop :=
+  (exists e, In e seen /\ is_adv (ev_pdu e) = true /\ ev_addr e = d_addr d
+             /\ from_bytes urlnorm (ev_data e) = Ok (d_adv d))
+  /\ match d_rsp d with
+     | None => d_got d = false
+     | Some l => d_got d = true
+                 /\ exists e, In e seen /\ ev_pdu e = ScanRsp /\ ev_addr e = d_addr d
+                              /\ from_bytes urlnorm (ev_data e) = Ok l
+     end.
+
+Lemma dev_ok_mono seen seen' d : incl seen seen' -> dev_ok seen d -> dev_ok seen' d.
+Proof.
+  intros I [(e & He & H1) H2]. split; [exists e; split; [apply I, He|exact H1]|].
+  destruct (d_rsp d); [|exact H2]. destruct H2 as [G (e' & He' & H3)].
+  split; [exact G|]. exists e'. split; [apply I, He'|exact H3].
+Qed.
+
+Lemma Forall_update_dev (P : device -> Prop) a f db :
+  Forall P db -> (forall d, P d -> d_addr d = a -> P (f d)) -> Forall P (update_dev a f db).
+Proof.
+  intros H Hf. unfold update_dev. apply Forall_forall. intros x Hx.
+  apply in_map_iff in Hx as (d & <- & Hd). rewrite Forall_forall in H.
+  destruct (N.eqb_spec (d_addr d) a); [apply Hf; [apply H, Hd|assumption]|apply H, Hd].
+Qed.
+
+Lemma timeouts_ok seen db : Forall (dev_ok seen) db -> Forall (dev_ok seen) (fst (timeouts db)).
+Proof.
+  induction 1 as [|d db Hd _ IH]; cbn [timeouts]; [constructor|].
+  destruct (timeouts db) as [r' ys]. cbn [fst] in IH.
+  destruct (d_scanned d && negb (d_reported d)); cbn [fst]; constructor; try assumption; exact Hd.
+Qed.
+
+Lemma find_dev_addr a db d : find_dev a db = Some d -> d_addr d = a.
+Proof. unfold find_dev. intros H. apply find_some in H as [_ H]. apply N.eqb_eq in H. exact H. Qed.
+
+Lemma handle_inv seen db ev r :
+  Forall (dev_ok seen) db -> handle urlnorm filter updates db ev = Ok r ->
+  Forall (dev_ok (seen ++ [ev])) (fst r).
+Proof.
+  intros H Hh.
+  assert (Hm : Forall (dev_ok (seen ++ [ev])) db).
+  { eapply Forall_impl; [|exact H]. intros d. apply dev_ok_mono. apply incl_appl, incl_refl. }
+  assert (Hin : In ev (seen ++ [ev])) by (apply in_or_app; right; left; reflexivity).
+  unfold handle in Hh. unfold parse_adv in Hh.
+  assert (ADV : forall conn p, ev_pdu ev = p -> is_adv p = true ->
+    (o <- match from_bytes urlnorm (ev_data ev) with
+          | Ok l => Ok (Some l) | Raise AdvDataError => Ok None
+          | Raise AdvDataFieldListOverflow => Ok None | Raise e => Raise e end ;;
+     match o with
+     | Some l =>
+        if filter_is filter (ev_addr ev) || filter_none filter
+        then let '(db', r0) := register db {| d_addr := ev_addr ev; d_type := ev_txadd ev; d_rssi := ev_rssi ev;
+                                             d_adv := l; d_rsp := None; d_got := false; d_conn := conn;
+                                             d_scanned := false; d_reported := false |} updates in
+             Ok (db', if r0 && updates then [ev_addr ev] else [])
+        else Ok (db, [])
+     | None => Ok (db, [])
+     end) = Ok r -> Forall (dev_ok (seen ++ [ev])) (fst r)).
+  { intros conn p Ep Ap Hr.
+    destruct (from_bytes urlnorm (ev_data ev)) as [l|e] eqn:Ef.
+    - cbn [bind] in Hr. destruct (filter_is filter (ev_addr ev) || filter_none filter).
+      + unfold register in Hr. cbn [d_addr d_rssi] in Hr.
+        destruct (find_dev (ev_addr ev) db) as [dev|].
+        * destruct (d_rssi dev =? ev_rssi ev); inversion Hr; subst; cbn [fst]; [exact Hm|].
+          apply Forall_update_dev; [exact Hm|]. intros d Hd _. exact Hd.
+        * inversion Hr; subst; cbn [fst]. apply Forall_app. split; [exact Hm|].
+          constructor; [|constructor]. split; cbn [d_addr d_adv d_rsp d_got]; [|reflexivity].
+          exists ev. repeat split; assumption || reflexivity.
+      + inversion Hr; subst. exact Hm.
+    - destruct e; cbn [bind] in Hr; try discriminate; inversion Hr; subst; exact Hm. }
+  destruct (ev_pdu ev) eqn:Ep.
+  - exact (ADV true AdvInd eq_refl eq_refl Hh).
+  - exact (ADV false AdvNonconn eq_refl eq_refl Hh).
+  - destruct (from_bytes urlnorm (ev_data ev)) as [l|e] eqn:Ef.
+    + cbn [bind] in Hh. destruct (find_dev (ev_addr ev) db) as [dev|] eqn:Efd.
+      * destruct (d_got dev); inversion Hh; subst; cbn [fst]; [exact Hm|].
+        apply Forall_update_dev; [exact Hm|]. intros d Hd Ha.
+        unfold set_scan_rsp. destruct (d_got d) eqn:G; [exact Hd|].
+        destruct Hd as [H1 H2]. split; [exact H1|]. cbn [d_rsp d_got d_addr]. split; [reflexivity|].
+        exists ev. auto.
+      * inversion Hh; subst. exact Hm.
+    + destruct e; cbn [bind] in Hh; try discriminate; inversion Hh; subst; exact Hm.
+  - inversion Hh; subst. exact Hm.
+Qed.
+
+Lemma on_device_found_inv seen db ev r :
+  Forall (dev_ok seen) db -> on_device_found urlnorm filter updates db ev = Ok r ->
+  Forall (dev_ok (seen ++ [ev])) (fst r).
+Proof.
+  intros H Hr. unfold on_device_found in Hr.
+  destruct (handle urlnorm filter updates db ev) as [x|] eqn:Eh; [|discriminate]. cbn [bind] in Hr.
+  pose proof (timeouts_ok _ _ (handle_inv seen db ev x H Eh)) as T.
+  destruct (timeouts (fst x)) as [db2 ys]. inversion Hr; subst. exact T.
+Qed.
+
+Lemma scan_inv evs : forall seen db r,
+  Forall (dev_ok seen) db -> scan urlnorm filter updates db evs = Ok r ->
+  Forall (dev_ok (seen ++ evs)) (fst r).
+Proof.
+  induction evs as [|ev evs IH]; intros seen db r H Hr; cbn [scan] in Hr.
+  - inversion Hr; subst. rewrite app_nil_r. exact H.
+  - destruct (on_device_found urlnorm filter updates db ev) as [x|] eqn:Eo; [|discriminate].
+    cbn [bind] in Hr. destruct (scan urlnorm filter updates (fst x) evs) as [y|] eqn:Es; [|discriminate].
+    cbn [bind] in Hr. inversion Hr; subst. cbn [fst].
+    replace (seen ++ ev :: evs) with ((seen ++ [ev]) ++ evs) by (rewrite <- app_assoc; reflexivity).
+    apply (IH _ (fst x)); [apply (on_device_found_inv seen db ev x H Eo)|exact Es].
+Qed.
+
+Lemma scan_stored_parsed evs r :
+  scan urlnorm filter updates [] evs = Ok r -> Forall (dev_ok evs) (fst r).
+Proof. intros H. apply (scan_inv evs [] [] r); [constructor|exact H]. Qed.
+
+End ScanProofs.
